@@ -26,6 +26,67 @@ def DocItem.plain (env : Env) : DocItem → Prop
       env.stdCheck sk (leafText v) ≠ .rejected ∧ stdKeyIsTime sk = false
   | _ => True
 
+/-- the segments of a step under the two extensions that add diagnostics or split text: with
+    INLINE_QUANTITIES a text run shows no inline quantity (`find_inline_quantity` finds nothing in the shown
+    text), with ADVANCED_UNITS a timer amount is numeric and its unit is a unit of time for the converter.
+    Vacuous when the extensions are off. -/
+def SegX.extOK (α : Type) [Arith α] (env : Env) : SegX → Prop
+  | .text l => env.ext.has Gen.EXT_INLINE_QUANTITIES = true →
+      l.flatMap vis ≠ [] ∧ findInlineQuantity (α := α) env ((l.flatMap vis).length + 1) [] (l.flatMap vis) = none
+  | .timer c _ => env.ext.has Gen.EXT_ADVANCED_UNITS = true → ∀ q, c.qty = some q →
+      q.val.isText = false ∧ ∀ u, q.unit = some u → env.findUnit (leafText u) = some env.timeQ
+  | _ => True
+
+def DocItem.extOK (α : Type) [Arith α] (env : Env) : DocItem → Prop
+  | .step segs => ∀ sg ∈ segs, sg.extOK α env
+  | _ => True
+
+theorem rtx_pair (env : Env) (seg : SegX) (it : SItem α) (h : SegXEv env.cs seg it.ev) (hx : seg.extOK α env)
+    (hit : it.Simple) : it.SimpleX env := by
+  cases it with
+  | text t =>
+    cases seg <;> simp only [SItem.ev, SegXEv] at h
+    intro hext
+    have := hx hext
+    rw [h]; exact this
+  | ingredient i => exact hit
+  | cookware c => exact hit
+  | timer lt =>
+    cases seg <;> simp only [SItem.ev, SegXEv] at h
+    rename_i c p
+    refine ⟨hit, ?_⟩
+    intro hext q hq
+    have hm := h.2
+    rw [hq] at hm
+    cases hc : c.qty with
+    | none => rw [hc] at hm; exact absurd hm (by simp [QtyMatches])
+    | some aq =>
+      rw [hc] at hm
+      simp only [QtyMatches] at hm
+      obtain ⟨e1, e2, e3⟩ := hm
+      obtain ⟨x1, x2⟩ := hx hext aq hc
+      refine ⟨by rw [e1, rtr_denote_isText]; exact x1, ?_⟩
+      intro u hu
+      rw [hu] at e3
+      cases hau : aq.unit with
+      | none => rw [hau] at e3; cases e3
+      | some au =>
+        rw [hau] at e3
+        simp only [Option.map_some, Option.some.injEq] at e3
+        rw [e3]
+        exact x2 au hau
+
+theorem rtx_all2_simpleX (env : Env) (segs : List SegX) (st : List (SItem α)) (h : SegsItems env.cs segs st)
+    (hx : ∀ sg ∈ segs, sg.extOK α env) (hs : ∀ it ∈ st, it.Simple) : ∀ it ∈ st, it.SimpleX env := by
+  induction h with
+  | nil => intro it hit; cases hit
+  | @cons seg it segs' st' hd _ ih =>
+    intro x hxm
+    simp only [List.mem_cons] at hxm
+    rcases hxm with rfl | hxm
+    · exact rtx_pair env seg x hd (hx seg (by simp)) (hs x (by simp))
+    · exact ih (fun sg hsg => hx sg (by simp [hsg])) (fun y hy => hs y (by simp [hy])) x hxm
+
 /-- a parsed block matches an abstract document item -/
 def BlockMatches (cs : CharSpec) : DocItem → SBlock α → Prop
   | .step segs, .step st => SegsItems cs segs st
@@ -34,13 +95,13 @@ def BlockMatches (cs : CharSpec) : DocItem → SBlock α → Prop
   | _, _ => False
 
 theorem rtx_item_block (env : Env) (d : DocItem) (evs : List (Ev α)) (h : DocItemEvs env.cs d evs)
-    (hok : d.ok env.cs env.ext = true) (hs : d.simple = true) (hp : d.plain env) :
+    (hok : d.ok env.cs env.ext = true) (hs : d.simple = true) (hp : d.plain env) (hx : d.extOK α env) :
     ∃ b : SBlock α, evs = b.events ∧ b.OK env ∧ BlockMatches env.cs d b := by
   cases d with
   | step segs =>
     obtain ⟨e, rfl, hsegs⟩ := h
     obtain ⟨st, rfl, h1, h2, h3⟩ := rtr_segs_items env.cs segs e hsegs hs
-    exact ⟨.step st, rfl, ⟨h1, h3 (rtr_step_ne env.cs env.ext segs hok)⟩, h2⟩
+    exact ⟨.step st, rfl, ⟨rtx_all2_simpleX env segs st h2 hx h1, h3 (rtr_step_ne env.cs env.ext segs hok)⟩, h2⟩
   | sectionLine name p =>
     obtain ⟨ev, rfl, hm⟩ := h
     cases ev <;> simp only [SectionMatches] at hm
@@ -57,21 +118,22 @@ theorem rtx_item_block (env : Env) (d : DocItem) (evs : List (Ev α)) (h : DocIt
 theorem rtx_doc_blocks (env : Env) (doc : List (DocItem × List Tok)) (evss : List (List (Ev α)))
     (h : All2 (fun (d : DocItem × List Tok) evs => DocItemEvs env.cs d.1 evs) doc evss)
     (hok : ∀ d ∈ doc, d.1.ok env.cs env.ext = true) (hs : ∀ d ∈ doc, d.1.simple = true)
-    (hp : ∀ d ∈ doc, d.1.plain env) :
+    (hp : ∀ d ∈ doc, d.1.plain env) (hx : ∀ d ∈ doc, d.1.extOK α env) :
     ∃ blocks : List (SBlock α), evss.flatten = blocks.flatMap SBlock.events ∧ (∀ b ∈ blocks, b.OK env) ∧
       All2 (BlockMatches env.cs) (doc.map (·.1)) blocks := by
   induction h with
   | nil => exact ⟨[], rfl, (fun b hb => nomatch hb), All2.nil⟩
   | @cons d evs doc' evss' hd _ ih =>
-    obtain ⟨blocks, e1, e2, e3⟩ := ih (fun x hx => hok x (by simp [hx])) (fun x hx => hs x (by simp [hx]))
-      (fun x hx => hp x (by simp [hx]))
+    obtain ⟨blocks, e1, e2, e3⟩ := ih (fun x hx' => hok x (by simp [hx'])) (fun x hx' => hs x (by simp [hx']))
+      (fun x hx' => hp x (by simp [hx'])) (fun x hx' => hx x (by simp [hx']))
     obtain ⟨b, rfl, hb1, hb2⟩ := rtx_item_block env d.1 evs hd (hok d (by simp)) (hs d (by simp)) (hp d (by simp))
+      (hx d (by simp))
     refine ⟨b :: blocks, by simp [e1], ?_, All2.cons hb2 e3⟩
-    intro x hx
-    simp only [List.mem_cons] at hx
-    rcases hx with rfl | hx
+    intro x hxm
+    simp only [List.mem_cons] at hxm
+    rcases hxm with rfl | hxm
     · exact hb1
-    · exact e2 x hx
+    · exact e2 x hxm
 
 /-! ### the intended result, from the abstract document -/
 
@@ -150,9 +212,9 @@ theorem rtx_abs (env : Env) : ∀ (items : List DocItem) (blocks : List (SBlock 
 
 /-- End to end for a document of steps, section lines and metadata lines. -/
 theorem rtx_parseRecipe_doc (env : Env) (pre : List Tok) (doc : List (DocItem × List Tok))
-    (hadv : env.ext.has Gen.EXT_ADVANCED_UNITS = false) (hinl : env.ext.has Gen.EXT_INLINE_QUANTITIES = false)
     (hpre : blankLinesOK pre = true) (hok : ∀ d ∈ doc, d.1.ok env.cs env.ext = true)
     (hsimple : ∀ d ∈ doc, d.1.simple = true) (hplain : ∀ d ∈ doc, d.1.plain env)
+    (hext : ∀ d ∈ doc, d.1.extOK α env)
     (hseps : sepsOK (doc.map (·.2)) = true) (hw : WellSpelled env.cs (pre ++ docSpec doc))
     (hfm : parseFrontmatter env.cs (render (pre ++ docSpec doc)) = none) :
     ∃ (c : Col α) (spans : List Span),
@@ -166,9 +228,9 @@ theorem rtx_parseRecipe_doc (env : Env) (pre : List Tok) (doc : List (DocItem ×
       c.inlineQ = #[] ∧ c.frontMatter = none := by
   obtain ⟨blocks0, evss, arr, -, -, hpe, harr, hevs⟩ :=
     rtd_pullEvents_doc (α := α) env.cs env.ext pre doc hpre hok hseps hw hfm
-  obtain ⟨blocks, e1, e2, e3⟩ := rtx_doc_blocks env doc evss hevs hok hsimple hplain
+  obtain ⟨blocks, e1, e2, e3⟩ := rtx_doc_blocks env doc evss hevs hok hsimple hplain hext
   obtain ⟨c, h1, h2, h3, h4, h5, h6, h7, h8, h9⟩ :=
-    rts_parseEvents_doc env (render (pre ++ docSpec doc)) hadv hinl blocks e2
+    rts_parseEvents_doc env (render (pre ++ docSpec doc)) blocks e2
   have hs' : ∀ i ∈ doc.map (·.1), i.simple = true := by
     intro i hi
     obtain ⟨d, hd, rfl⟩ := List.mem_map.1 hi
